@@ -1064,6 +1064,15 @@ func (c14) Gen(rt *rapid.T, thorough bool) any {
 		s.Touch = false
 		return s
 	}
+	if rapid.IntRange(0, 11).Draw(rt, "idle_then_failed_creation") == 0 {
+		// the appender was idle for longer than MaxAge, and the creation of the next file fails at
+		// the very rotation that ends the idle period: its current file is still the live one
+		s.Interval, s.MaxAge, s.FaultDir, s.Separate, s.ViaLogger = "h", rapid.SampledFrom([]int{1, 2}).Draw(rt, "idle_max_age"), []string{"open-once"}, false, false
+		s.Clock = []int{ckPlus3Intervals}
+		s.Knobs.MapSeed -= s.Knobs.MapSeed % 3 // the first creation after Start is the one that fails
+		s.Writers = [][]int{{5, 5, 5}}
+		return s
+	}
 	s.Restart14 = !s.ViaLogger && rapid.IntRange(0, 3).Draw(rt, "restart14") == 0
 	if s.Separate && !s.ViaLogger && rapid.Bool().Draw(rt, "max_age2") {
 		s.MaxAge2 = rapid.SampledFrom([]int{1, 24, 720, 10000}).Draw(rt, "max_age2_v")
